@@ -63,6 +63,23 @@ def run(rep, tier):
                 path = core.write_replay("C17", oid, data)
                 rep.violation(oid, path, nofail=True)
 
+    # node values of Set_xrange(a,b,scale): real-arithmetic VCs, one per grid length (bounded stand-in, never counted as proved)
+    import l2
+    ct3 = extract.instantiate(open(os.path.join(core.VERIF, "contracts", "C17_l2.c")).read(), rep)
+    qs = []
+    for nx in (range(2, 9) if tier == "quick" else range(2, 17)):
+        for nm in ("linear", "Linear", "lin", "Lin"):
+            qs.append(l2.Query("nodes.%s.nx%d" % (nm, nx), ct3, ["NX=%d" % nx, "SCALE=0", "TOK_LINNAME=TOK_" + nm], timeout=120, unwind=nx + 2,
+                               function="SQuIDS::Set_xrange(double,double,string) [node values]", where="src/SQuIDS.cpp"))
+        for nm in ("log", "Log"):
+            qs.append(l2.Query("nodes.%s.nx%d" % (nm, nx), ct3, ["NX=%d" % nx, "SCALE=1", "TOK_LOGNAME=TOK_" + nm], timeout=120, unwind=nx + 2,
+                               function="SQuIDS::Set_xrange(double,double,string) [node values]", where="src/SQuIDS.cpp"))
+    rep.assume("node values: machine arithmetic treated as mathematical; exp/log known only as mutually inverse strictly increasing functions")
+    for q, r in zip(qs, core.pmap(lambda q: l2.run_query(q, bdir, [bdir, os.path.join(core.VERIF, "spec")]), qs)):
+        oid = "C17.L2." + q.name
+        rep.add(oid, q.function, "L2", r.backend or "smt", r.status, r.seconds, q.where, r.detail, bounded="grid length nx = %s" % q.name.split("nx")[-1])
+        if r.status == "failed":
+            rep.violation(oid, core.write_replay("C17", oid, dict(obligation=oid, verifier_output=r.detail[:3000], reproduced=None)), nofail=True)
 
 def replay(path):
     ok = replaylib.run_replay("C17", path)
